@@ -9,9 +9,12 @@ Obligations generated from the real source on every run (DESIGN §3 C04):
      every image-constructor call site of the parsing package (c04_flow: the size argument is len() of the payload expression),
      and no store overwrites payload / size afterwards;
  (c) FileMetadataInterface.populate_from_path against an assumed pathlib contract;
- (d) well-formed Unicode: every own-code source of characters -- each chr(n) site (integer range of n on the path), each
-     bytes->str decode site (codec and error handler), string literals;
- (e) image numbers >= 1 at the constructor call sites (counter discipline) and at stores to number fields
+ (d) well-formed Unicode: every own-code source of characters -- each int->character site: chr(n) calls, the builtin chr used as a
+     value (`map(chr, xs)`: element range of xs incl. quantified guards `not any(P(v) for v in xs)`; aliases are undecided sites),
+     'c' formats, int-valued translate tables; each bytes->str decode site (codec and error handler); other calls taking errors= and
+     escape-syntax decoders (json.loads ...); string literals;
+ (e) image numbers >= 1 at the constructor call sites (counter discipline), at stores to number fields, at indirect stores
+     (dataclasses.replace / setattr with resolvable names) and for image classes passed around as values
      (unit numbers: C03's obligations);
  (f) accessor totality: get_text / get_images / get_tables / get_metadata of every unit class, get_content_type / get_caption /
      get_description / get_metadata of every image class, get_table / get_dim, get_metadata of every content class raise
